@@ -941,6 +941,78 @@ func main() {
 			})
 		}
 	}
+	// function-local integer constants, constants of other packages that the package refers to, and the literal
+	// shift amounts of every function (the packed-word arithmetic of ChanCaster is modelled with these)
+	ext := map[string]string{}
+	for _, f := range files {
+		for _, d := range f.Decls {
+			fd, ok := d.(*ast.FuncDecl)
+			if !ok || fd.Body == nil {
+				continue
+			}
+			fname := fd.Name.Name
+			if fd.Recv != nil && len(fd.Recv.List) > 0 {
+				t := fd.Recv.List[0].Type
+				if s, ok := t.(*ast.StarExpr); ok {
+					t = s.X
+				}
+				if ie, ok := t.(*ast.IndexListExpr); ok {
+					t = ie.X
+				}
+				if ie, ok := t.(*ast.IndexExpr); ok {
+					t = ie.X
+				}
+				if id, ok := t.(*ast.Ident); ok {
+					fname = id.Name + "_" + fname
+				}
+			}
+			var shifts []string
+			ast.Inspect(fd.Body, func(n ast.Node) bool {
+				switch v := n.(type) {
+				case *ast.GenDecl:
+					if v.Tok == token.CONST {
+						for _, sp := range v.Specs {
+							if vs, ok := sp.(*ast.ValueSpec); ok {
+								for _, id := range vs.Names {
+									if c, ok := info.Defs[id].(*types.Const); ok && c.Val().Kind() == constant.Int {
+										fmt.Fprintf(&cb, "def localconst_%s_%s : Int := %s\n", lname(fname), lname(id.Name), c.Val().ExactString())
+									}
+								}
+							}
+						}
+					}
+				case *ast.SelectorExpr:
+					if id, ok := v.X.(*ast.Ident); ok {
+						if _, isPkg := info.Uses[id].(*types.PkgName); isPkg {
+							if tv, ok := info.Types[v]; ok && tv.Value != nil && tv.Value.Kind() == constant.Int {
+								ext[id.Name+"_"+v.Sel.Name] = tv.Value.ExactString()
+							}
+						}
+					}
+				case *ast.BinaryExpr:
+					if v.Op == token.SHL || v.Op == token.SHR {
+						if tv, ok := info.Types[v.Y]; ok && tv.Value != nil {
+							shifts = append(shifts, tv.Value.ExactString())
+						} else {
+							shifts = append(shifts, "-1")
+						}
+					}
+				}
+				return true
+			})
+			if len(shifts) > 0 {
+				fmt.Fprintf(&cb, "def shifts_%s : List Int := [%s]\n", lname(fname), strings.Join(shifts, ", "))
+			}
+		}
+	}
+	var extNames []string
+	for k := range ext {
+		extNames = append(extNames, k)
+	}
+	sort.Strings(extNames)
+	for _, k := range extNames {
+		fmt.Fprintf(&cb, "def extconst_%s : Int := %s\n", lname(k), ext[k])
+	}
 	cb.WriteString("end BB.Gen.Consts\n")
 	// ---- Skel
 	var sb strings.Builder
